@@ -8,25 +8,24 @@
 From Verif Require Import Base.Prelude Model.PyVal Model.ToHashable Model.ToHashableSpec Corr.Run_C15.
 From Verif Require Import Proofs.ToHashableFacts Proofs.C15SpecFacts.
 
-(* ---- key_hashable: to_hashable returns a hashable key *)
-Theorem C15_key_hashable_partial : forall fp v k,
-  wf v = true -> no_pandas v = true ->
-  to_hashable fp v = Ok k -> py_hashable k = true.
+(* ---- key_hashable: to_hashable returns a hashable key - FULL: every well-formed value, pandas included *)
+Theorem C15_key_hashable : forall fp v k,
+  wf v = true -> to_hashable fp v = Ok k -> py_hashable k = true.
 Proof. exact key_hashable. Qed.
-Print Assumptions C15_key_hashable_partial.
+Print Assumptions C15_key_hashable.
 
 Example C15_key_hashable_nontrivial :   (* {2: [1], 1: (5, {3, 'a', None}), None: masked array} *)
   let v := PDict [(PInt 2, PList [PInt 1]); (PInt 1, PTuple [PInt 5; PSet [PInt 3; PStr (s "a"); PNone]]);
                   (PNone, PSeq (KNd true (s "<i8") [2%Z]) [PInt 1; PA AMasked])] in
-  wf v = true /\ no_pandas v = true /\ exists k, to_hashable true v = Ok k /\ py_hashable k = true.
+  wf v = true /\ exists k, to_hashable true v = Ok k /\ py_hashable k = true.
 Proof. repeat split; try (vm_compute; reflexivity). eexists. split; vm_compute; reflexivity. Qed.
 
-(* ---- total_on_supported: a key is returned (sorted() can no longer raise: canonical sort key) *)
-Theorem C15_total_on_supported_partial : forall fp v,
-  wf v = true -> no_pandas v = true -> convertible fp v = true ->
-  exists k, to_hashable fp v = Ok k.
+(* ---- total_on_supported: a key is returned (sorted() can no longer raise: canonical sort key) - FULL: every
+   well-formed value whose opaque objects may and can use the pickle fallback, pandas included *)
+Theorem C15_total_on_supported : forall fp v,
+  wf v = true -> convertible fp v = true -> exists k, to_hashable fp v = Ok k.
 Proof. exact total_on_supported. Qed.
-Print Assumptions C15_total_on_supported_partial.
+Print Assumptions C15_total_on_supported.
 
 (* ---- eq_implies_key_eq: equal values of the same type get equal keys (canonicity of the sort by _sort_key:
    mixed-type / None / tuple / frozenset elements and keys included) *)
